@@ -103,10 +103,12 @@ def run(rep: Report) -> None:
                       "" if not probs else f"{probs[0][0]}: `{probs[0][1]}` not provably in domain (sign {probs[0][2]}): "
                       "the value can be NaN/inf for admissible arguments",
                       key=f"def|{r.impl}|{prim}|{probs[0][0] if probs else ''}")
-        # python-level selection on values must be on scalars
-        for e in a.events:
-            if e[0] == "symbolic-ifexp":
-                pass
+        # a primitive that writes into its arguments returns different values when the same
+        # argument objects are then handed to the other engine
+        for r in (a, b):
+            ev = [e for e in r.events if e[0] in ("mutates-shared", "mutates-caller-container")]
+            rep.check(not ev, "arguments-untouched", f"{r.impl} {inst}", r.where,
+                      "" if not ev else ev[0][2], key=f"argmut|{r.impl}|{prim}")
     rep.floor("primitive configurations compared", n, 60)
     # numpy with the length-1 arrays the engine itself creates
     for r in runs1:
